@@ -161,7 +161,7 @@ pub enum Op {
     /// (a "signature made over the wrapped length byte"); it is delivered at once with that context
     SignWrapped { sk: usize, msg: Vec<u8>, ctx_len: usize, mode: Mode, rnd: [u8; 32] },
     /// a context of 2^32 + `extra` bytes (all zero, never touched unless the library reads it) is handed
-    /// to the signer, to the internal signer and, with the tuple signed last, to every verifier replica:
+    /// to the signer, to the internal signer and, with the tuple signed last, to the first verifier replica:
     /// the width at which a length held in 32 bits wraps, as 256 and 65536 are for 8 and 16 bits
     HugeCtx { sk: usize, msg: Vec<u8>, extra: u8, mode: Mode, rnd: [u8; 32] },
 }
@@ -605,25 +605,25 @@ pub fn execute(set: &dyn DynSet, xi: &[u8; 32], xi_other: &[u8; 32], ops: &[Op],
                     continue;
                 };
                 bump(&mut st.faults_fired, "channel/context_of_4gib");
-                // a library that lets this through hashes 4 GiB per call: report the first acceptance and move on
+                // a library that lets this through hashes 4 GiB per call (about 12 s): report the first acceptance
+                // and move on; every call gets its own liveness window, and only the first verifier replica is asked
+                watch::touch(i, || format!("operation {i} ({}: sign) of a history on {}", op.name(), info.name));
                 if let Some(Ok(_)) = guard!(i, "sign", s.obj.sign_rng(&mut SimRng::healthy(rnd.to_vec()), msg, &ctx, *mode)) {
                     finds.push(Finding { prop: "C07", invariant: "signer-accepts-overlong-context".into(), at_op: i, observed: format!("signing ({}) with a context of 2^32+{extra} bytes returned a signature", mode.name()), expected: "Err".into() });
                     continue;
                 }
+                watch::touch(i, || format!("operation {i} ({}: _internal_sign) of a history on {}", op.name(), info.name));
                 if let Some(Ok(_)) = guard!(i, "_internal_sign", s.obj.sign_internal_ctx(msg, &ctx, *rnd)) {
                     finds.push(Finding { prop: "C07", invariant: "signer-accepts-overlong-context".into(), at_op: i, observed: format!("_internal_sign with a context of 2^32+{extra} bytes returned a signature"), expected: "Err".into() });
                     continue;
                 }
-                let Some(tu) = tuples.last() else { continue };
-                for p in pks.iter() {
-                    st.verifies += 1;
-                    let Some(dec) = guard!(i, "verify", p.obj.verify(&tu.msg, &tu.sig, &ctx, tu.mode)) else { continue };
-                    let deci = guard!(i, "_internal_verify", p.obj.verify_internal(&tu.msg, &tu.sig, &ctx)).unwrap_or(false);
-                    st.sigs.insert(format!("{}|context_of_4gib|{}|{}", info.name, tu.mode.name(), dec || deci));
-                    if dec || deci {
-                        finds.push(Finding { prop: "C07", invariant: "verifier-accepts-overlong-context".into(), at_op: i, observed: format!("verification ({}) with a context of 2^32+{extra} bytes returned true (replica `{}`)", tu.mode.name(), p.prov), expected: "verification returns false".into() });
-                        break;
-                    }
+                let (Some(tu), Some(p)) = (tuples.last(), pks.first()) else { continue };
+                watch::touch(i, || format!("operation {i} ({}: verify) of a history on {}", op.name(), info.name));
+                st.verifies += 1;
+                let Some(dec) = guard!(i, "verify", p.obj.verify(&tu.msg, &tu.sig, &ctx, tu.mode)) else { continue };
+                st.sigs.insert(format!("{}|context_of_4gib|{}|{}", info.name, tu.mode.name(), dec));
+                if dec {
+                    finds.push(Finding { prop: "C07", invariant: "verifier-accepts-overlong-context".into(), at_op: i, observed: format!("verification ({}) with a context of 2^32+{extra} bytes returned true (replica `{}`)", tu.mode.name(), p.prov), expected: "verification returns false".into() });
                 }
             }
             Op::DeliverAs { .. } | Op::DeliverReframed { .. } | Op::DeliverCross { .. } | Op::DeliverLongCtx { .. } => {
